@@ -448,13 +448,21 @@ class TimeTriggeredPlanValidator(engines.engine.Engine, mixins.PlanValidatorMixi
                     )
                 g_value = self._ground_expression(instantiated_effect.value, ai)
                 if instantiated_effect.kind == EffectKind.ASSIGN:
-                    result[g_fluent] = se.evaluate(g_value, state=state)
+                    value = se.evaluate(g_value, state=state)
+                    if g_fluent in result and result[g_fluent] != value:
+                        # two instances of the same forall effect assign the same ground fluent
+                        if not g_fluent.type.is_bool_type():
+                            raise UPConflictingEffectsException("Double effect")
+                        value = em.TRUE()  # "delete before add" semantics
+                    result[g_fluent] = value
                 else:
-                    f_value = (
-                        updates[g_fluent]
-                        if g_fluent in updates
-                        else state.get_value(g_fluent)
-                    )
+                    if g_fluent in result:
+                        # instances of the same forall effect accumulate
+                        f_value = result[g_fluent]
+                    elif g_fluent in updates:
+                        f_value = updates[g_fluent]
+                    else:
+                        f_value = state.get_value(g_fluent)
                     if instantiated_effect.kind == EffectKind.DECREASE:
                         result[g_fluent] = se.evaluate(
                             em.Minus(f_value, g_value), state=state
